@@ -81,7 +81,7 @@ func TestVerif_C15_e2e(t *testing.T) {
 	h2.StartTLS()
 	defer h2.Close()
 
-	n := verifh.N(220, 4000)
+	n := verifh.N(220, 3000)
 	for i := 0; i < n; i++ {
 		cs := verifh.Pick(r, c15Charsets)
 		var site string
@@ -142,21 +142,26 @@ func TestVerif_C15_e2e(t *testing.T) {
 		var got []byte
 		var term, anomaly string
 		var err error
-		if mode == "bytes" {
-			var resp *Response
-			resp, err = c.R().Get(url + "/?id=" + id)
-			if err == nil {
-				got = resp.Bytes()
-				term = "eof"
+		ptxt, panicked := verifh.Safely(func() {
+			if mode == "bytes" {
+				var resp *Response
+				resp, err = c.R().Get(url + "/?id=" + id)
+				if err == nil {
+					got = resp.Bytes()
+					term = "eof"
+				}
+			} else {
+				var resp *Response
+				resp, err = c.R().DisableAutoReadResponse().Get(url + "/?id=" + id)
+				if err == nil {
+					bufs, tail, _ := c15PickBufs(r, len(b.body))
+					got, term, anomaly = c15Drain(resp.Body, bufs, tail, []byte{0xAA})
+					resp.Body.Close()
+				}
 			}
-		} else {
-			var resp *Response
-			resp, err = c.R().DisableAutoReadResponse().Get(url + "/?id=" + id)
-			if err == nil {
-				bufs, tail, _ := c15PickBufs(r, len(b.body))
-				got, term, anomaly = c15Drain(resp.Body, bufs, tail, []byte{0xAA})
-				resp.Body.Close()
-			}
+		})
+		if panicked {
+			anomaly = "panic in the caller's goroutine: " + ptxt
 		}
 		c.GetTransport().CloseIdleConnections()
 		// oracle
